@@ -520,6 +520,9 @@ def mon_protocol(tr, pid='C08', decision=None):
             if t != 'ERROR':
                 bad('stream_frame_on_connection_stream', 'stream_frame_on_stream_0:' + t)
             continue
+        if f.get('follows') and f.get('complete') and t in ('PAYLOAD', 'REQUEST_CHANNEL'):
+            # COMPLETE says "this was my last payload on the stream"; a fragment that announces more fragments cannot say it
+            bad('complete_flag_before_last_fragment', 'complete_before_last_fragment:' + t)
         s = st.get(sid)
         if t in REQ_TYPES:
             if s is not None and not s.terminated() and not (s.role == 'responder' and s.own_closed()):
@@ -1039,6 +1042,25 @@ def mon_connection_loss(tr, pid='C11', affected=('c', 's'), settled_mark='settle
                         out.append(viol('subscriber_left_hanging', '%s:hanging:%s' % (pid, k), **facts))
                     elif len(term_after) > 1:
                         out.append(viol('subscriber_failed_twice', '%s:failed_twice:%s' % (pid, k), **facts))
+        if req_side in affected and k == 'ch' and spec.get('rsrc') is not None:
+            # the requester of a channel produces too: its outbound publisher is cancelled like any other producer
+            kind = spec['rsrc'].get('kind', 'manual')
+            pe = [e for e in evs if e['side'] == req_side and e.get('dir') == 'req']
+            finished = any(e['ev'] in ('hand_end', 'src_on_complete', 'gen_exhausted', 'pub_cancel', 'src_on_cancel')
+                           and e['seq'] < fseq for e in pe) or \
+                any(e['ev'] == 'hand' and e.get('complete') and e['seq'] < fseq for e in pe)
+            if not finished:
+                if kind == 'manual':
+                    if any(e['ev'] == 'pub_subscribed' and e['seq'] < fseq for e in pe) and \
+                            not any(e['ev'] == 'pub_cancel' and e['seq'] > fseq for e in pe) and \
+                            not any((e['ev'] in ('hand_end', 'hand_fail') or (e['ev'] == 'hand' and e.get('complete')))
+                                    and e['seq'] > fseq for e in pe):
+                        out.append(viol('publisher_not_cancelled', '%s:not_cancelled:requester:manual' % pid, **facts))
+                elif kind in ('gen', 'agen'):
+                    if any(e['ev'] == 'gen_start' and e['seq'] < fseq for e in pe) and \
+                            not any(e['ev'] == 'src_on_cancel' and e['seq'] > fseq for e in pe) and \
+                            not any(e['ev'] in ('src_on_complete', 'gen_exhausted') and e['seq'] > fseq for e in pe):
+                        out.append(viol('publisher_not_cancelled', '%s:not_cancelled:requester:%s' % (pid, kind), **facts))
         if resp_side in affected and k in ('rr', 'st', 'ch'):
             handled = next((e for e in evs if e['ev'] == 'handler' and e['side'] == resp_side), None)
             if handled is None or handled['seq'] > fseq:
